@@ -162,7 +162,7 @@ def run_case(case):
     mods = common.mods()
     mesh = case['mesh']
     ref = families.make_ref('p', mesh, case['fields'], layout=case['layout'], geom=case['geom'],
-                            ref_line_extra=case.get('ref_extra', 0))
+                            ref_line_extra=case.get('ref_extra', 0), level_prefix=case.get('level_prefix', 'Level_'))
     tier = common.TIER
     PlotfileCooker = mods['amr_kitchen.plotfile_cooker'].PlotfileCooker
     fsels = field_selectors(ref.fields, tier)
@@ -359,6 +359,10 @@ def cases():
         if m.nboxes() == [3]:
             for lay in families.all_layouts(3, 2 if tier == 'quick' else 3):
                 out.append({'label': '%s/layout%s' % (m.name, lay), 'mesh': m, 'fields': fsets[2], 'layout': [lay], 'geom': 1})
+    # level directories under another name than Level_n
+    for j, mm in enumerate([x for x in families.curated_meshes() if x.name in ('3d-2lev-mixed', '2d-2lev')]):
+        out.append({'label': '%s/lev-prefix' % mm.name, 'mesh': mm, 'fields': ['density', 'temp'] if 'c05' in __name__ else families.FIELD_SETS[1 + j], 'layout': families.scatter_layouts(mm, rnd, 2), 'geom': j,
+                    'ref_extra': j, 'level_prefix': ['Lev_', 'amr_'][j]})
     nrand = 6 if tier == 'quick' else 300
     for r in range(nrand):
         nd = rnd.choice([2, 3])
